@@ -43,7 +43,15 @@ def snap(objs):
 def kernel_ro(payload):
     from fast_ticc.cluster_label_assignment import assign_point_cluster_labels as kernel
     res = []
-    for tab, beta in payload:
+    for item in payload:
+        tab, beta = item[0], item[1]
+        if isinstance(tab, tuple):          # ("big", T, K, seed): built here rather than shipped
+            tab = np.random.default_rng(tab[3]).normal(size=(tab[1], tab[2]))
+        readonly = item[2] if len(item) > 2 else True
+        # (arrays come out of the pickle writable: the read-only flag is set here, in the process that makes the call)
+        tab.setflags(write=not readonly)
+        if isinstance(beta, np.ndarray):
+            beta.setflags(write=not readonly)
         before = (tab.tobytes(), beta.tobytes() if isinstance(beta, np.ndarray) else None)
         try:
             kernel(label_assignment_cost=tab, label_switching_cost=beta)
@@ -170,17 +178,22 @@ def run(ctx):
             call("_zero_small_elements(copy=True)", lambda: gl._zero_small_elements(M, 0.5), [M])
         WRITABLE[0] = False
         # the labelling kernel under JIT with read-only inputs
-        payload = [(ro(rng.normal(size=(9, 3)), "CF"[j % 2]), ro(np.full(9, 2.0)) if j % 2 else 2.0) for j in range(6)]
+        payload = [(np.array(ro(rng.normal(size=(9, 3)), "CF"[j % 2])), np.full(9, 2.0) if j % 2 else 2.0, True) for j in range(6)]
+        # tables of tens of megabytes (size thresholds of "in place above N bytes" optimisations), writable and read-only
+        payload += [(("big", 1050000, 4, 19), 2.0, False), (("big", 1050000, 4, 20), 2.0, True), (("big", 300000, 8, 21), 2.0, False)]
         r = core.run_worker(ctx, "vcheck.props.c19:kernel_ro", payload, mode="jit", tag="ro")
         if not r["ok"]:
             ctx.violation("tie", "JIT worker failed: %s" % r["error"][:300], {"correspondence": "harness:C19.jit"}, no_input=True)
         else:
-            for (same, err), (tab, beta) in zip(r["result"], payload):
+            for (same, err), item in zip(r["result"], payload):
                 ctx.count("jit-kernel-call")
+                shape = item[0][1:3] if isinstance(item[0], tuple) else item[0].shape
+                desc = {"call": "assign_point_cluster_labels/jit", "table_shape": list(shape), "read_only": bool(item[2])}
                 if not same:
-                    ctx.violation("monitor", "JIT-compiled labelling kernel modified its inputs", {"call": "assign_point_cluster_labels/jit"})
+                    ctx.violation("monitor", "JIT-compiled labelling kernel modified the %d x %d cost table it was given" % tuple(shape), desc)
                 if err:
-                    ctx.violation("monitor", "JIT-compiled labelling kernel rejects read-only inputs: %s" % err, {"call": "assign_point_cluster_labels/jit"})
+                    ctx.violation("monitor", "JIT-compiled labelling kernel fails on a %s %d x %d cost table: %s" % (
+                        "read-only" if item[2] else "writable", shape[0], shape[1], err), desc)
     ctx.coverage["distribution"] = hist
     core.anchored_check(ctx, ANCHORS, cov, ignore=("raise TypeError", "not_a_numpy_array", "not_a_list_of_numpy_arrays", "LOGGER.", "new_rho", "scale = args.rho", "u = scale * u", "filtered = array"))
     ctx.sample({"site": list(key(sites[0]))})
